@@ -8,7 +8,8 @@
  *        f<p>  rb_find(rbt, data node at in-order position p)  -> in-order position of the answer, n for NULL
  *        g<k>  rb_find(rbt, a data node with key k that is NOT in the tree)
  *   lyds <type> <place> <every> <ops>   one system-ordered (leaf-)list through the public API
- *        type  i8 str d64 un (leaf-lists) l1 l2 (lists); key k -> value text, see key_text()
+ *        type  i8 str d64 un (leaf-lists) l1 l2 (lists); key k -> value text, see key_text(); l2 instances with an odd key
+ *              are created by lyd_new_path with the key predicates in reverse order, and looked up in both orders
  *        place t0 t1 t2 c0 c1 c2: top level / inside container c; 0 alone, 1 nodes before, 2 nodes before and after
  *        i<k>  create an instance with key k and insert it (lyd_new_term / lyd_new_list with the parent, or
  *              lyd_insert_sibling at top level)
@@ -169,7 +170,21 @@ new_inst(struct lyd_node *parent, const char *ty, int k, int with_id)
 
     key_text(ty, k, v1, v2);
     if (!strcmp(ty, "l2")) {
-        rc = lyd_new_list(parent, mod, ty, 0, &n, v1, v2);
+        rc = LY_EEXIST;
+        if (k & 1) {
+            /* odd keys: created by path with the key predicates NOT in schema order (lyd_new_path -> lyd_create_list);
+             * an instance with these keys may exist already (duplicates are part of the scripts): then by name */
+            char path[128];
+
+            sprintf(path, "%s/s:l2[b='%s'][a='%s']", parent ? "/s:c" : "", v2, v1);
+            rc = lyd_new_path(parent, ctx, path, NULL, 0, &n);
+            if (rc) {
+                n = NULL;
+            }
+        }
+        if (rc) {
+            rc = lyd_new_list(parent, mod, ty, 0, &n, v1, v2);
+        }
     } else if (!strcmp(ty, "l1")) {
         rc = lyd_new_list(parent, mod, ty, 0, &n, v1);
     } else {
@@ -562,6 +577,13 @@ state_check_dump(struct lst *s, struct lyd_node **pool, int npool, int show)
         if (!strcmp(s->ty, "l1")) {
             sprintf(pred, "[k='%s']", v1);
         } else if (!strcmp(s->ty, "l2")) {
+            /* key predicates in both orders */
+            sprintf(pred, "[b='%s'][a='%s']", v2, v1);
+            if (lyd_find_sibling_val(first_sibling(s), s->schema, pred, 0, &match) || !match ||
+                    (node_id(match) < 0) || (nkey[node_id(match)] != nkey[id])) {
+                bad_add(bad, 'F');
+            }
+            match = NULL;
             sprintf(pred, "[a='%s'][b='%s']", v1, v2);
         } else {
             strcpy(pred, v1);
@@ -569,6 +591,15 @@ state_check_dump(struct lst *s, struct lyd_node **pool, int npool, int show)
         if (lyd_find_sibling_val(first_sibling(s), s->schema, pred, 0, &match) || !match ||
                 (node_id(match) < 0) || (nkey[node_id(match)] != nkey[id])) {
             bad_add(bad, 'F');
+        }
+        /* a list instance has its keys first and in schema order */
+        if (is_list_type(s->ty)) {
+            const struct lyd_node *ch = lyd_child(s->inst[i]);
+
+            if (!ch || strcmp(LYD_NAME(ch), (s->ty[1] == '2') ? "a" : "k") ||
+                    ((s->ty[1] == '2') && (!ch->next || strcmp(LYD_NAME(ch->next), "b")))) {
+                bad_add(bad, 'C');
+            }
         }
     }
     if (show) {
@@ -945,7 +976,11 @@ run_lyds(struct vcase *c)
             if (!strcmp(s->ty, "l1")) {
                 sprintf(pred, "[k='%s']", v1);
             } else if (!strcmp(s->ty, "l2")) {
-                sprintf(pred, "[a='%s'][b='%s']", v1, v2);
+                if (arg & 1) {
+                    sprintf(pred, "[b='%s'][a='%s']", v2, v1);
+                } else {
+                    sprintf(pred, "[a='%s'][b='%s']", v1, v2);
+                }
             } else {
                 strcpy(pred, v1);
             }
